@@ -578,9 +578,10 @@ func callSSA(i *interpreter, caller *frame, callpos token.Pos, fn *ssa.Function,
 			return call(i, caller, callpos, st, args)
 		}
 	}
-	if fn.Parent() == nil && fn.Pkg != nil && fn.Pkg.Pkg.Path() == "fmt" && fmtEntry[fn.Name()] && fn.Signature.Recv() == nil && !i.underTest(caller) {
-		// message text built by dependencies (go-openapi/errors, strconv, …);
-		// formatting done by the code under test itself is interpreted faithfully
+	if fn.Parent() == nil && fn.Pkg != nil && fn.Pkg.Pkg.Path() == "fmt" && fmtEntry[fn.Name()] && fn.Signature.Recv() == nil && (fn.Name() == "Errorf" || !i.underTest(caller)) {
+		// error message text, and any text built by dependencies (go-openapi/errors,
+		// strconv, …); other formatting done by the code under test itself
+		// (header values, multipart dispositions) is interpreted faithfully
 		args = sanitizeFmtArgs(args)
 	}
 	if fn.Parent() == nil {
